@@ -2,7 +2,7 @@
    a later change of a statement there makes this file fail). *)
 From Coq Require Import List ZArith String Bool Arith.
 Import ListNotations.
-From NV Require Import Delayed.Model Delayed.Spec Delayed.Tracked Delayed.Rel Delayed.Main Delayed.Refuted Props.C08.
+From NV Require Import Delayed.Model Delayed.Spec Delayed.Tracked Delayed.Rel Delayed.Main Delayed.Refuted Delayed.ReachTable Props.C08.
 
 Check (C08_pending_tracked_at : forall es p i,
   prim_array_at es p i =
@@ -85,3 +85,6 @@ Check (C08_values_broken_refuted : exists fs, view_arr (prim_record_values_broke
 Check (C08_concat_label_refuted : exists (l : lit),
     force 8 (TObs (OConcatL l) from_caller) = Err EBlame /\
     force 8 (TObs OId from_caller) = Err EBlameNeg).
+Check (C08_reach_table_correct : forall o zs p b m,
+  reach_table o (List.length zs) p = Some b ->
+  reaches (S (S (S (S m)))) (KArr (nums zs)) o [p] = b).
